@@ -61,7 +61,8 @@ def cases(tier, seed):
                     cs.append({'entry': 'pt_solve', 'semiring': kind, 'types': patterns.depict_type(t),
                                'operands': [{'recipe': ra, 'default': da}, {'recipe': rb, 'default': db}]})
         # multi_solve / multi_mv over all block structures on two keys
-        shape_sets = [{'x': [2], 'y': []}] if tier == 'quick' else [{'x': [2], 'y': []}, {'x': [], 'y': []}, {'x': [2], 'y': [1]}, {'x': [1, 2], 'y': []}]
+        # blocks with two axes per key: flattening must keep the index groups in order (also under transpose)
+        shape_sets = [{'x': [2], 'y': []}, {'x': [2, 2], 'y': []}] if tier == 'quick' else [{'x': [2], 'y': []}, {'x': [], 'y': []}, {'x': [2], 'y': [1]}, {'x': [1, 2], 'y': []}, {'x': [2, 2], 'y': []}, {'x': [2, 2], 'y': [2]}]
         if kind in ('real', 'log'):
             # nonlinear real arithmetic: flattened order 2 (scalar blocks); the block bookkeeping itself is
             # semiring-generic and is covered with larger blocks in the Viterbi/Bool semirings
@@ -70,6 +71,8 @@ def cases(tier, seed):
             allab = [('x', 'x'), ('x', 'y'), ('y', 'x'), ('y', 'y')]
             for mask in range(16):
                 ab = [allab[i] for i in range(4) if mask >> i & 1]
+                if math.prod(shapes['x']) > 2 and (kind != 'bool' or (mask % 2 and tier == 'quick')):
+                    continue      # two-axis blocks (flattened order 5): Bool semiring only (the block bookkeeping is semiring-generic)
                 if kind == 'log' and len(ab) > 2:
                     continue     # stated bound: the Log solver is decided for at most two present blocks
                 for bmask in range(1, 4):
